@@ -3,6 +3,7 @@ lemmas).  The counts in evidence are measured by the run; this file only holds p
 A1 = 'A1: pyvc encoding of the Python subset (DESIGN 3.2-3.3) is the largest trusted item'
 A2 = 'A2: Python float treated as mathematical real (no rounding); int exact'
 A4 = 'A4: user callbacks/event actions act only through the public API, no re-entrant run/step/shutdown/restore'
+A8 = 'A8: visible-state semantics: other objects (environment, resource manager, neighbours) satisfy their class invariants at call boundaries'
 A7 = 'A7: z3 5.1 sound (thorough tier cross-checks with z3 4.8 / cvc5)'
 
 CLAIMS = {}
